@@ -60,14 +60,14 @@ void harness(void) {
 #endif
 
 #ifdef H_prepareRequest
-static unsigned t4_ser_calls, t4_send_calls; static int t4_ser_res, t4_send_res; static unsigned char *t4_raw; static size_t t4_raw_len; static void *t4_pdu_seen;
+static _Bool t4_ser_ok; static unsigned t4_ser_calls, t4_send_calls; static int t4_ser_res, t4_send_res; static unsigned char *t4_raw; static size_t t4_raw_len; static void *t4_pdu_seen;
 static KSI_RequestHandle *t4_send_handle; static char *t4_send_host; static unsigned t4_send_port; static KSI_NetworkClient *t4_send_client;
 static int t4_serialize(void *pdu, unsigned char **raw, size_t *len) {
 	t4_ser_calls++; t4_pdu_seen = pdu;
 	if (t4_ser_res != KSI_OK) return t4_ser_res;
 	t4_raw = malloc(4); if (t4_raw == NULL) return KSI_OUT_OF_MEMORY;
 	t4_raw_len = nondet_size(); __CPROVER_assume(t4_raw_len >= 1 && t4_raw_len <= 4);
-	*raw = t4_raw; *len = t4_raw_len; return KSI_OK;
+	*raw = t4_raw; *len = t4_raw_len; t4_ser_ok = 1; return KSI_OK;
 }
 static int t4_sendRequest(KSI_NetworkClient *c, KSI_RequestHandle *h, char *host, unsigned port) {
 	t4_send_calls++; t4_send_client = c; t4_send_handle = h; t4_send_host = host; t4_send_port = port;
@@ -86,6 +86,8 @@ void harness(void) {
 		__CPROVER_assert(res == KSI_INVALID_ARGUMENT && t4_ser_calls == 0 && t4_new_calls == 0 && out == marker, "prepareRequest: missing context / PDU / receiver refused before anything is serialized");
 	} else {
 		__CPROVER_assert(t4_ser_calls == 1 && t4_pdu_seen == &pdu, "prepareRequest: the PDU is serialized exactly once");
+		__CPROVER_assert(IFF(res == KSI_OK, t4_ser_ok && t4_new_res == KSI_OK && which != 3 && t4_send_res == KSI_OK), "prepareRequest: OK <=> serialized, handle created, client has a sender and the sender accepted the handle");
+		__CPROVER_assert(IMPLIES(t4_ser_ok && t4_new_res == KSI_OK && which != 3 && t4_send_res != KSI_OK, res == t4_send_res), "prepareRequest: the sender's error is passed on");
 		if (res == KSI_OK) {
 			__CPROVER_assert(out == &t4_rh && t4_new_calls == 1 && t4_new_req == t4_raw && t4_new_len == t4_raw_len, "prepareRequest ok: the new handle's request is EXACTLY the serialized PDU (all its octets, nothing else)");
 			__CPROVER_assert(t4_send_calls == 1 && t4_send_client == &client && t4_send_host == host && t4_send_port == port, "prepareRequest ok: handed to the sender once, with the endpoint given");
